@@ -61,7 +61,7 @@ for _f in ('contains_word', 'contains_exact_word', 'get_correct_capitalization_o
 # unit -> runtime contract checks to fall back on when the unit cannot be decided by Verus at all
 # (extraction anchor lost, construct unsupported after a rewrite): a concrete failing input found on
 # the real code is still a violation; no hit leaves the run undecided (exit 2).
-for _f in ('lex_escaped', 'lex_uchar', 'lex_xchar', 'lex_xchar_string', 'is_xchar_string', 'is_uchar_plus_string', 'lex_login', 'lex_url', 'lex_hostname_token'):
+for _f in ('lex_escaped', 'lex_uchar', 'lex_xchar', 'lex_xchar_string', 'is_xchar_string', 'is_uchar_plus_string', 'lex_login', 'lex_url', 'lex_hostname_token', 'lex_hostname', 'lex_email_address'):
     RAC_FOR_FUNCTION[_f] = ['url_scanner', 'lexers']
 
 RAC_FOR_FUNCTION['Mask::push_allowed'] = ['mask_push']
